@@ -237,7 +237,7 @@ class _LogProxy:
         return v
 
 
-def run_drop_race(fn, ver_b, pending, cmd_text, sched):
+def run_drop_race(fn, ver_b, pending, cmd_text, sched, yield_ver=False):
     """recipient B has `pending` = (amount, period) drops configured and header version ver_b; sender A has one burst due at fn;
     the clock thread runs A.clck_tick, the socket thread handles cmd_text on B's control socket.
     -> (final amount, final period, muted, datagrams B's L1 got [(is_nope, fn)], reply, trace, thread states)"""
@@ -272,6 +272,23 @@ def run_drop_race(fn, ver_b, pending, cmd_text, sched):
         a._tx_queue.append(m)
         fwd = burst_fwd.BurstForwarder([a, b])
         reply = []
+        if yield_ver:
+            # every read / write of the recipient's negotiated header version is a preemption point (the socket thread writes it
+            # in SETFORMAT, the clock thread reads it while forwarding)
+            base = type(b.data_if)
+
+            class _DI(base):
+                @property
+                def _hdr_ver(self):
+                    ctl.point("read hdr_ver")
+                    return self.__dict__["_v"]
+
+                @_hdr_ver.setter
+                def _hdr_ver(self, v):
+                    ctl.point("write hdr_ver")
+                    self.__dict__["_v"] = v
+            b.data_if.__dict__["_v"] = b.data_if.__dict__.pop("_hdr_ver")
+            b.data_if.__class__ = _DI
 
         def tick():
             a.clck_tick(fwd, fn)
@@ -289,6 +306,7 @@ def run_drop_race(fn, ver_b, pending, cmd_text, sched):
             while ctl.step(who):
                 pass
         got = []
+        run_drop_race.last_raw = [bytes(d[0]) for d in b.data_if.sock.sent]
         for d in b.data_if.sock.sent:
             dg = bytes(d[0])
             got.append((1 if (dg[0] >> 4) >= 1 and len(dg) > 8 and (dg[8] & 0x80) else 0, int.from_bytes(dg[1:5], "big")))
